@@ -98,7 +98,7 @@ fn main() {
         let idx: usize = idx.parse().unwrap();
         let input = zoo_rt::unhex(hex);
         let mode_s = mode.to_string();
-        let r = std::panic::catch_unwind(move || zoo_rt::with_tail(&input, |inp| run(idx, &mode_s, inp)));
+        let r = std::panic::catch_unwind(move || if mode_s.starts_with('t') { zoo_rt::with_tail(&input, |inp| run(idx, &mode_s, inp)) } else { zoo_rt::with_tails(&input, |inp| run(idx, &mode_s, inp)) });
         let s = match r { Ok(Some(s)) => s, Ok(None) => "NODEF".to_string(), Err(_) => "PANIC".to_string() };
         writeln!(out, "{} {} {} : {}", idx, mode, hex, s.trim_end()).unwrap();
         out.flush().unwrap();
